@@ -16,7 +16,7 @@ theorem C17_rejected_before_result (stages : List Stage) (C : Comparator) (r : R
     cases hl : topologyProblems r ++ repetitionProblems r with
     | nil => exact absurd hl h
     | cons _ _ => rfl
-  simp only [Bool.not_false, if_true, this]
+  simp only [this, Bool.false_eq_true, if_false]
   exact ⟨_, rfl⟩
 
 /-- a repeated routine that does not have exactly one child, or has resources of its own, is a repetition problem -/
